@@ -99,6 +99,87 @@ func scanConcExec(c *Ctx, op string) {
 	if nbad > 0 {
 		c.PropFail("scan-concurrent", fmt.Sprintf("%d of %d goroutines scanning two %s archives at the same time got an id other than the one the archive scans to alone (e.g. %s)", nbad, g, fmtName, first), op)
 	}
+	// unpacks at the same time (a stitch of several inputs): every tree holds, byte for byte, the files that were packed
+	{
+		type want struct {
+			name string
+			data []byte
+		}
+		var wants [][]want
+		for w := range wares {
+			var ws []want
+			for _, n := range []string{"a", "d/b", "d/c", "z"} {
+				b, _ := os.ReadFile(filepath.Join(base, fmt.Sprintf("src%d", w), n))
+				ws = append(ws, want{n, b})
+			}
+			wants = append(wants, ws)
+		}
+		ubad := make([]string, g)
+		var uwg sync.WaitGroup
+		for k := 0; k < g; k++ {
+			uwg.Add(1)
+			go func(k int) {
+				defer uwg.Done()
+				wi := k % len(wares)
+				dst := filepath.Join(base, fmt.Sprintf("udst%d", k))
+				id, err, pan := safeCall(func() (api.WareID, error) {
+					return fn.unpack(ctx, wares[wi].id, dst, uf, rio.Placement_Direct, []api.WarehouseLocation{wares[wi].addr}, rio.Monitor{})
+				})
+				if r := resTok(id, err, pan); r != "ok "+wares[wi].id.Hash {
+					ubad[k] = "the unpack answers " + r
+					return
+				}
+				for _, x := range wants[wi] {
+					if b, e := os.ReadFile(filepath.Join(dst, x.name)); e != nil || string(b) != string(x.data) {
+						ubad[k] = fmt.Sprintf("file %s (%d bytes) differs from what was packed", x.name, len(x.data))
+						return
+					}
+				}
+				rmrf(dst)
+			}(k)
+		}
+		uwg.Wait()
+		nb, firstU := 0, ""
+		for _, b := range ubad {
+			if b != "" {
+				nb++
+				if firstU == "" {
+					firstU = b
+				}
+			}
+		}
+		c.H(fmt.Sprintf("scanconc:%s:unpack-bad=%v", fmtName, nb > 0))
+		if nb > 0 {
+			c.PropFail("roundtrip-tree", fmt.Sprintf("%d of %d unpacks of two intact %s wares (files of 70 kB to 2 MiB) running at the same time in one process failed or delivered other bytes (e.g. %s)", nb, g, fmtName, firstU), op)
+		}
+	}
+	// … and after operations that broke off in the middle of a file body (a truncated download, a full disk): what a later
+	// scan of an intact archive answers does not depend on what happened before it in the same process
+	{
+		raw, err := os.ReadFile(strings.TrimPrefix(string(wares[0].addr), "file://"))
+		if err == nil && len(raw) > 1000 {
+			failed := 0
+			for i, cut := range []int{len(raw) / 4, len(raw) / 2, len(raw) * 3 / 4, len(raw) / 3, len(raw) * 2 / 3, len(raw) - 600, 700} {
+				tp := filepath.Join(base, fmt.Sprintf("cut%d", i))
+				os.WriteFile(tp, raw[:cut], 0644)
+				r := scan(ware{wares[0].id, api.WarehouseLocation("file://" + tp)})
+				if !strings.HasPrefix(r, "ok") {
+					failed++
+				}
+				// an unpack that fails while placing (the destination's parent is a file)
+				os.WriteFile(filepath.Join(base, "notadir"), []byte("x"), 0644)
+				safeCall(func() (api.WareID, error) {
+					return fn.unpack(ctx, wares[0].id, filepath.Join(base, "notadir", "dst"), uf, rio.Placement_Direct, []api.WarehouseLocation{wares[0].addr}, rio.Monitor{})
+				})
+			}
+			c.H(fmt.Sprintf("scanconc:%s:after-failed=%d", fmtName, failed))
+			for _, w := range wares {
+				if r := scan(w); r != "ok "+w.id.Hash {
+					c.PropFail("scan-concurrent", fmt.Sprintf("after %d scans of truncated copies had failed in this process, the intact %s archive scans to %s instead of %s", failed, fmtName, r, w.id.Hash), op)
+				}
+			}
+		}
+	}
 	c.Distinct(op)
 }
 
